@@ -259,7 +259,17 @@ def run_history(h, check_every=True, qsubset=None, r=None, stop_on_first=True):
                     finally:
                         obj._validate_every_param_set = False
                 elif op[0] == "clone":
-                    obj = obj.clone(**{k: copy.deepcopy(P[k][j]) for k, j in op[1].items()})
+                    changes_ = {k: P[k][j] for k, j in op[1].items()}
+                    # clone(**changes) is "an updated copy": its parameters are those of a deep copy updated with the same changes
+                    try:
+                        ref_ = copy.deepcopy(obj)
+                        ref_.update(**copy.deepcopy(changes_))
+                        want_ = canon(ref_.parameter_values)
+                    except Exception:
+                        want_ = None
+                    obj = obj.clone(**copy.deepcopy(changes_))
+                    if want_ is not None and canon(obj.parameter_values) != want_:
+                        viol.append({"at": i, "kind": "clone-parameters-differ-from-updated-copy", "changes": show(changes_)})
                 elif op[0] == "deepcopy":
                     obj = copy.deepcopy(obj)
                 elif op[0] == "pickle":
